@@ -120,7 +120,7 @@ ADDED = {
  "C11": "Also: a new ack table is recounted after publication; the queued timeout stays armed on the ack-pending wake-up path. ProcessLeaderPushLock tracks or fails a pending ack request on every return. The rollback clears the logged mark of every value object it restores. While the leader's flush and the followers' acknowledgements count down one counter, the required count exceeds the number of followers (known finding: majority mode with two or more followers does not need the leader's own write).",
  "C12": "Also: the outstanding-commit marker is cleared only at a closed list of points. The log-position comparator weighs the id bytes the way the log writes them, file index major (a reproduced ordering defect was repaired).",
  "C13": "Also: parser upper bounds and the reply buffer's headroom by linear entailment; the recycled text reply is fully reassigned; fixed-capacity table indexes. Allocations sized by an integer decoded from the wire are bounded. Table indexes decoded from a client's message are bounded; slices of the stored frame bounded by request-supplied lengths stay within it; value-frame walkers are bounded by the frame (four reproduced crash inputs were repaired). GetValueOffset never points beyond the frame (reproduced crash inputs repaired).",
- "C14": "Also: parser cursors (two reproduced chunking defects repaired), key/id normaliser totality, converters define every wire field of the pooled command; an empty list completes at the element-count line (defect repaired); the option loop ends after the rest of the arguments is handed to a nested conversion (defect repaired).",
+ "C14": "Also: parser cursors (two reproduced chunking defects repaired), key/id normaliser totality, converters define every wire field of the pooled command; no parser field is assigned from a loop-carried local; an empty list completes at the element-count line (defect repaired); the option loop ends after the rest of the arguments is handed to a nested conversion (defect repaired).",
  "C15": "Also: no aliasing of the stored value into results; the pre-operation value is read before it is cleared. Redis-style result writers say error only where the engine's result says so; a binary request's data frame is a private buffer. On a grant the key's depth is incremented before the value operation runs. No comparison mixes the request-type and value-operation enumerations (known finding: PIPELINE). Every allocated value frame that is handed on as a frame has its own length minus four stored in its first four bytes before the hand-over (29 allocations). The engine reads the stored bytes as an integer only under the NUMBER type mark (known finding: it does not - SET n 10, INCRBY n 1 answers 12338).",
  "C16": "Also: replay quiescence is decided on the channels' queue counters (a reproduced start-up compaction race was repaired); nothing retired after publishing may be the published snapshot; log-file lists snapshot-first. HasLock reports a non-LOCK record gone only when no hold with its id exists. A compaction computes its input list once, before the load.",
  "C17": "Also: queue compaction and migration return the reference of every entry they drop. A function that answers a queued request itself tombstones it before scanning the wait queue.",
